@@ -19,7 +19,7 @@ yen = KaniUnit("c13_yen", CORE,
                            subst=[("prev_accepted_path.len()", "len")])],
                modules=[dict(file=CORE + "/src/algorithm/search/search_instance.rs", src="world.rs"), dict(file=YEN, src="c13_yen.rs")],
                harnesses=[H("c13_yen_spur_range_no_underflow", "complete", "yens_algorithm::run: the spur range `0..prev_accepted_path.len()<..>` neither underflows nor leaves the previous path, for any stored route (len >= 1)", timeout=120)])
-yen.native_witnesses = ['c13_wit_yen_one_edge_route', 'c13_wit_yen_two_edge_route_returns', 'c13_wit_yen_three_edge_route_with_detour', 'c13_wit_yen_spur_vertex_without_alternative', 'c13_wit_yen_at_most_k_distinct_routes', 'c13_wit_yen_routes_are_loop_free']
+yen.native_witnesses = ['c13_wit_yen_one_edge_route', 'c13_wit_yen_two_edge_route_returns', 'c13_wit_yen_three_edge_route_with_detour', 'c13_wit_yen_spur_vertex_without_alternative', 'c13_wit_yen_at_most_k_distinct_routes', 'c13_wit_yen_routes_are_loop_free', 'c13_wit_yen_no_two_routes_too_similar']
 kw = KaniUnit("c01_wit", CORE, modules=[dict(file=CORE + "/src/algorithm/search/search_instance.rs", src="world.rs"),
                                        dict(file=CORE + "/src/algorithm/search/search_algorithm.rs", src="c01_wit.rs")], harnesses=[])
 kw.native_witnesses = ["c01_wit_single_via_routes_are_walks", "c03_wit_ksp_routes_report_their_own_retraversal"]
